@@ -887,6 +887,12 @@ class Sandbox:
                     pre = raw[:e.start]
                     line, col = pre.count(b"\n") + 1, len(pre.rsplit(b"\n", 1)[-1].decode("utf-8", errors="replace"))
                     model_files[vp] = {"nottext": [line, col, line, col]}
+            elif "symlink" in v:
+                # a symbolic link (dangling or looping targets are the point): for the front end it is a file only if
+                # following it reaches one; the model's file system has no links, so only non-resolving ones are used
+                if p.exists() or p.is_symlink():
+                    p.unlink()
+                os.symlink(v["symlink"], p)
             elif "ext" in v:
                 text, mdefs = ext_yaml(v["ext"])
                 p.write_text(text)
